@@ -174,6 +174,9 @@ func Run(s *simrt.Sim, a *harness.Args, r *harness.Result) {
 	// messages at the endpoint) and two messages are submitted concurrently
 	fileBody := s.T.Choose(st, 2) == 1
 	concurrent := s.T.Choose(st, 2) == 1
+	// message identifiers as the SMTP endpoint makes them (module.GenerateMsgID)
+	// instead of fixed ones: the spool names its files after them
+	genIDs := s.T.Choose(st, 2) == 1
 	// the signer has been up for six days (longer than the default
 	// sig_expiry of five) when the messages arrive
 	uptime := []time.Duration{0, 0, 0, 6 * 24 * time.Hour}[s.T.Choose(st, 4)]
@@ -248,6 +251,11 @@ func Run(s *simrt.Sim, a *harness.Args, r *harness.Result) {
 	s.Spawn("mxserve", nil, func() { mx.Serve(l) })
 
 	n := 1 + s.T.Choose(st, 2)
+	if firstFails && n > 1 && s.T.Choose(st, 2) == 1 {
+		// the first transmission of every message fails: the retries come
+		// due together and the spool entries are read back side by side
+		plan.Final = []actors.Outcome{actors.Temp, actors.Temp, actors.OK}
+	}
 	var msgs []*emsg
 	for i := 0; i < n; i++ {
 		m := &emsg{id: fmt.Sprintf("e%d", i+1)}
@@ -322,6 +330,13 @@ func Run(s *simrt.Sim, a *harness.Args, r *harness.Result) {
 			simrt.Harnessf("generated header does not parse: %v", err)
 		}
 		meta := &module.MsgMetadata{ID: m.id, OriginalFrom: m.from, SMTPOpts: smtp.MailOptions{UTF8: m.utf8}}
+		if genIDs {
+			id, err := module.GenerateMsgID()
+			if err != nil {
+				simrt.Harnessf("GenerateMsgID: %v", err)
+			}
+			meta.ID = id
+		}
 		// like the SMTP endpoint, hand the pipeline the sender with a
 		// case-folded U-label domain whatever the client sent
 		d, err := pipe.Start(ctx, meta, cleanDomain(m.from))
@@ -513,7 +528,7 @@ func Run(s *simrt.Sim, a *harness.Args, r *harness.Result) {
 		}
 	}
 	s.StatN("verified_at_next_hop", verified)
-	r.Shape = fmt.Sprintf("%s %s/%s srvutf8=%v retry=%v crash=%d frag=%d rf=%v fb=%v conc=%v up=%v msgs=%d", algo, hc, bc, srvUTF8, firstFails, crashAt, maxRead, readFault, fileBody, concurrent, uptime, n)
+	r.Shape = fmt.Sprintf("%s %s/%s srvutf8=%v retry=%v crash=%d frag=%d rf=%v fb=%v conc=%v gid=%v up=%v msgs=%d", algo, hc, bc, srvUTF8, firstFails, crashAt, maxRead, readFault, fileBody, concurrent, genIDs, uptime, n)
 	for _, m := range msgs {
 		r.Shape += fmt.Sprintf("[%s u=%v h=%d b=%d]", m.from, m.utf8, len(m.hdrRaw), len(m.body))
 	}
